@@ -10,6 +10,7 @@ from vlib import hexf, close
 HERE = os.path.dirname(os.path.abspath(__file__))
 sys.path.insert(0, HERE)
 import e2e  # noqa: E402  (props/C08/e2e.py: end-to-end search)
+import integrators as stp  # noqa: E402  (props/C08/integrators.py: RK4/DormandPrince/MagFieldEquation, translator + differential)
 
 PRE = ("From Coq Require Import ZArith List Floats.\n"
        "From Celer Require Import Base.Num Base.NumF Base.Vec3 C08.Run.\n"
@@ -128,6 +129,61 @@ def prop_line(c):
     for k, a in c["gs"]:
         t += [str(k), hx(a)]
     return " ".join(t)
+
+
+def gen_multi_case(r):
+    """a HISTORY of 2-5 propagate(step) calls on one FieldPropagator object: the
+    scripts are consumed across the calls; ~half of the calls are aimed at ending
+    in a chosen exit branch on their first substep (full step accepted / finish
+    inside the delta_intersection margin past the end of the step / boundary /
+    tiny update), so that the NEXT call starts from each kind of committed state"""
+    c = gen_prop_case(r)
+    n = r.choice([2, 2, 3, 3, 4, 5])
+    steps = [c["step"]]
+    for _ in range(n - 1):
+        k = r.random()
+        if k < 0.5:
+            steps.append(c["step"] * r.choice([1.0, 0.5, 2.0, r.uniform(0.1, 3.0)]))
+        elif k < 0.6:
+            steps.append(c["minsub"] * r.choice([0.5] + EDGE + [2.5]))
+        else:
+            steps.append(logu(r, -6, 3))
+    c["steps"] = steps
+    if r.random() < 0.6:
+        # aim the first substep of the first call(s): driver takes the whole remaining length
+        c["ds"][0][0] = 1.0
+        c["ds"][0][1] = r.choice([1.0, 0.999, r.uniform(0.3, 1.0)])
+        c["gs"][0] = r.choice([(0, 0.0), (2, 0.5), (2, 1e-6), (2, 1 - 1e-6), (2, 3e-7), (2, r.random()),
+                               (1, 0.5), (4, 0.5)])
+    return c
+
+
+def multi_line(c):
+    t = ["PM", hx(c["minsub"]), hx(c["dint"]), str(c["maxsub"]), str(len(c["steps"]))]
+    t += [hx(x) for x in c["steps"]] + [str(c["onb"])]
+    t += [hx(x) for x in c["pos"] + c["dir"]] + [hx(c["energy"]), hx(c["mass"]), str(c["L"])]
+    for s in c["ds"]:
+        t += [hx(x) for x in s]
+    for k, a in c["gs"]:
+        t += [str(k), hx(a)]
+    return " ".join(t)
+
+
+def multi_model_expr(c, segs):
+    calls = []
+    start = (bool(c["onb"]), c["pos"], c["dir"])
+    for step, o in zip(c["steps"], segs):
+        dans = [ev[2] for ev in o["ev"] if ev[0] == "A"]
+        gans = [ev[2] for ev in o["ev"] if ev[0] == "F"]
+        n = min(len(dans), len(gans))
+        calls.append("(%s, [%s], [%s], (%s, %s, %s))" % (
+            hexf(step), "; ".join(fl(a) for a in dans[:n]),
+            "; ".join("(%s, %s)" % (hexf(d), "true" if b else "false") for d, b in gans[:n]),
+            "true" if start[0] else "false", fl(start[1]), fl(start[2])))
+        # the next call starts from the geometry state this call left (see Run.v)
+        start = (o["res"]["gonb"], o["res"]["gpos"], o["res"]["gdir"])
+    return "run_prop_many %s %s %d %s %s [%s]" % (
+        hexf(c["minsub"]), hexf(c["dint"]), c["maxsub"], fl(c["dir"]), hexf(segs[0]["pmag"]), "; ".join(calls))
 
 
 def fh(t):
@@ -470,6 +526,8 @@ def run(ctx):
     n_drv = 450 if quick else 12000
     ctx.trusted += [
         "hand-written models coq/C08/{PropagatorModel,DriverModel,Helix}.v tied by scripted-oracle replay against the real templates (props/C08/run.py, harness/scripted.cc) and by the ZHelixStepper differential",
+        "integrator models: coq/Generated/C08_steppers.v regenerated from RungeKuttaStepper.hh/DormandPrinceStepper.hh by translators/steppers.py on every run (the translator is trusted only as far as the differential harness/steppers.cc against the real templates checks its output); hand-written coq/C08/{StepperBase,Steppers}.v (OdeState axpy, MagFieldEquation coefficient/right-hand side, field functors)",
+        "histories of calls on one propagator: the model re-reads the start position of call k+1 from the implementation's geometry after call k (C08_propagator_state_synced)",
         "float instance of Num (Base/NumF.v, Base/FloatFun.v): own exp/log/sin/cos; compared with libm under rtol 1e-9",
         "gap R vs binary64 rounding (DESIGN.md 3.1)",
         "end-to-end: analytic helix reference computed in Python (props/C08/e2e.py) with double precision",
@@ -479,8 +537,11 @@ def run(ctx):
         "geometry contract (C03): 0 <= find_next_step(limit).distance <= limit; move_internal clears and move_to_boundary sets the on-boundary state; set_dir/find_next_step preserve it",
         "truncation error of RK4 / Dormand-Prince beyond the controller's own estimate is not proved (numerical analysis)",
     ]
+    # regenerate the integrator models from the current headers BEFORE proving:
+    # a changed tableau constant or axpy sequence changes the model the theorems are about
+    tie_err = stp.regenerate(ctx)
     proofs_ok = ctx.coq_prove("Properties_C08.v")
-    ok, log = ctx.coq_build(["C08/Run.vo"])
+    ok, log = ctx.coq_build(["C08/Run.vo", "C08/RunSteppers.vo"])
     if not ok:
         ctx.violation("model-broken", "the executable model no longer compiles",
                       getattr(ctx, "broken_proof", {"log_tail": log[-2000:]}), no_input=True)
@@ -501,6 +562,7 @@ def run(ctx):
     th = threading.Thread(target=build_e2e)
     th.start()
     try:
+        exe["steppers"] = ctx.compile_harness([os.path.join(HERE, "harness", "steppers.cc")], "steppers")
         exe["scripted"] = ctx.compile_harness([os.path.join(HERE, "harness", "scripted.cc")], "scripted",
                                               libs=["celeritas", "orange", "geocel", "corecel"])
     finally:
@@ -562,6 +624,66 @@ def run(ctx):
         if ndis > 6:
             break
 
+    # ---- histories of calls on ONE propagator object ---------------------------
+    n_multi = 600 if quick else 6000
+    mcases = [gen_multi_case(r) for _ in range(n_multi)]
+    rc, out = ctx.run_harness(exe["scripted"], input="\n".join(multi_line(c) for c in mcases) + "\n")
+    lines = out.strip().splitlines()
+    if rc != 0 or len(lines) != len(mcases):
+        raise vlib.BuildError("scripted multi-call propagator harness failed rc=%d" % rc, out[-2000:])
+    msegs = []
+    for l in lines:
+        segs = [parse_prop(x.strip()) for x in l.split(";;")]
+        msegs.append([sg for sg in segs if sg["ok"]])       # an exhausted script ends the history
+    live = [(c, sg) for c, sg in zip(mcases, msegs) if sg]
+    ctx.count("prop-history:script-exhausted-in-first-call", len(mcases) - len(live))
+    mvals = ctx.coq_eval("prop_many", PRE, [multi_model_expr(c, sg) for c, sg in live], chunk=nchunk(len(live)))
+    ndis = 0
+    for (c, segs), mv in zip(live, mvals):
+        outs, okf = mv
+        ctx.case(["history", c["minsub"], c["steps"], c["pos"], c["energy"]], nontrivial=len(segs) > 1)
+        ctx.count("prop-history:calls:%d" % len(segs))
+        prev_out = None
+        for k, (step, o) in enumerate(zip(c["steps"], segs)):
+            ck = dict(c, step=step, onb=(c["onb"] if k == 0 else int(segs[k - 1]["res"]["gonb"])))
+            pv = prop_oracle(ck, o)
+            if pv is None and k > 0:
+                # state-machine property: the call must start from where the previous one left
+                # the geometry (the internal state_ is synced with the geometry after every call)
+                first_adv = next((e for e in o["ev"] if e[0] == "A"), None)
+                gp = segs[k - 1]["res"]["gpos"]
+                if first_adv is not None and not vclose(first_adv[1][1:4], gp, 1e-12):
+                    pv = ("call %d on the same propagator starts integrating from %r although the previous call "
+                          "left the geometry at %r (internal state not synced)" % (k, first_adv[1][1:4], gp))
+            if pv:
+                found_input = True
+                ndis += 1
+                ctx.violation("property", "FieldPropagator, history of calls on one object: " + pv,
+                              {"case": c, "call": k, "impl_events": o["ev"], "impl_result": o["res"],
+                               "harness_line": multi_line(c)})
+                break
+            if k >= len(outs):
+                dv = "model ran out of fuel in call %d, implementation did not" % k
+            else:
+                m = outs[k]
+                dv = compare_prop(ck, o, ((m[0], m[1], m[2]), m[3], m[4], m[5], m[6]))
+            if dv:
+                ke = prop_knife_edge(ck, o)
+                if ke:
+                    ctx.count("prop-history:knife-edge-accepted:" + ke)
+                    break       # later calls legitimately start from a different state
+                ndis += 1
+                ctx.violation("correspondence", "PropagatorModel (history of calls) and FieldPropagator.hh differ in call %d: %s" % (k, dv),
+                              {"case": c, "call": k, "impl_events": o["ev"], "impl_result": o["res"], "model": m if k < len(outs) else None,
+                               "harness_line": multi_line(c)}, no_input=True)
+                break
+            if k > 0:
+                bk = (m[4][2] or [None])[-1]
+                ctx.count("prop-history:previous-call-ended-by:%s" % names.get(prev_out, prev_out))
+            prev_out = (m[4][2] or [None])[-1]
+        if ndis > 6:
+            break
+
     # ---- scripted driver ----------------------------------------------------
     dcases = [gen_driver_case(r) for _ in range(n_drv)]
     rc, out = ctx.run_harness(exe["scripted"], input="\n".join(driver_line(c) for c in dcases) + "\n")
@@ -606,6 +728,12 @@ def run(ctx):
         if ndis > 6:
             break
 
+    # ---- integrators: RK4 / Dormand-Prince / MagFieldEquation ---------------
+    found_input |= stp.run(ctx, exe["steppers"])
+    if tie_err:
+        ctx.violation("tie-broken", "translators/steppers.py no longer recognises the integrator source: " + tie_err,
+                      {"broken": "translators/steppers.py", "detail": tie_err}, no_input=True)
+
     # ---- ZHelix differential + end-to-end search ---------------------------
     found_input |= e2e.finish(ctx, e2e_job, PRE)
 
@@ -614,8 +742,11 @@ def run(ctx):
     ctx.coverage["rule"] = (
         "cases drawn from one PRNG seeded by VERIF_SEED: (a) scripted propagator = options, step, start state, "
         "40 relative driver answers + 40 relative geometry answers resolved by the oracles against the real call "
-        "arguments (contract-respecting, biased to branch thresholds +-1e-6); (b) scripted driver = options, start "
-        "state, 1-3 successive advance requests, 80 relative stepper answers; (c) ZHelixStepper vs model; "
+        "arguments (contract-respecting, biased to branch thresholds +-1e-6); (a') histories of 2-5 propagate calls "
+        "on ONE FieldPropagator object, scripts consumed across the calls, first substeps aimed at each exit branch; "
+        "(b) scripted driver = options, start "
+        "state, 1-3 successive advance requests, 80 relative stepper answers; (b') RK4/Dormand-Prince/MagFieldEquation "
+        "on random states, uniform and linear fields, charges, step/R 1e-6..3; (c) ZHelixStepper vs model; "
         "(d) end-to-end propagations on ORANGE geometries. non-trivial = the script was long enough / the run "
         "returned a result; distinct by (options, step, start state)")
-    ctx.coverage["traces_validated_against_impl"] = len(pcases) + len(live)
+    ctx.coverage["traces_validated_against_impl"] = len(pcases) + len(live) + len(mcases)
